@@ -1,0 +1,53 @@
+//go:build verif
+
+// Contracts for govc (comment-only file; see /verif/DESIGN.md section 3).
+package keygen
+
+// ---- round state invariants (established by the start function / the previous Finalize)
+//@ pred hok(h *round.Helper) := h != nil && h.hash != nil && h.hash.h != nil && h.info.Group != nil && !excl(h.mtx)
+//@ pred r1ok(r *round1) := r != nil && hok(r.Helper) && r.privateShare != nil && r.publicKey != nil && r.verificationShares != nil && r.threshold >= 0
+//@ pred r2ok(r *round2) := r != nil && r1ok(r.round1) && r.f_i != nil && r.Phi != nil && r.ChainKeys != nil && r.ChainKeyCommitments != nil
+//@ pred r3ok(r *round3) := r != nil && r2ok(r.round2) && r.shareFrom != nil
+
+// ---- what the CBOR decoder leaves in the content templates of BroadcastContent()/MessageContent() (A-CBOR)
+//@ pred dec_b2(b *broadcast2) := (b.Phi_i != nil ==> expok(b.Phi_i)) && (b.Sigma_i != nil ==> shapedProof(b.Sigma_i))
+//@ pred dec_m3(m *message3) := true
+
+// ---- names for the verification steps (C03 gates)
+//@ spec fn sch_ok(Int, Int, Int) Bool
+//@ spec fn evalpt(Int, Int) Int
+//@ spec fn idsc(Int) Int
+//@ spec fn expconst(Int) Int
+
+//@ func (*round2).StoreBroadcastMessage
+//@   nopanic[C05]
+//@   requires r2ok(r) && msg.Content != nil && (typeis(msg.Content, *broadcast2) ==> (msg.Content.(*broadcast2) != nil ==> dec_b2(msg.Content.(*broadcast2))))
+//@   let body = msg.Content.(*broadcast2)
+//@   ensures[C03,C02] result == nil ==> typeis(msg.Content, *broadcast2) && body != nil && body.Phi_i != nil
+//@   ensures[C03,C02,C05] result == nil ==> polydeg(body.Phi_i) == r.threshold && body.Phi_i.IsConstant == r.refresh
+//@   ensures[C03] result == nil ==> len(body.Commitment) == 64
+//@   ensures[C03,C02] result == nil ==> r.Phi[msg.From] == body.Phi_i && r.ChainKeyCommitments[msg.From] == body.Commitment
+//@   ensures[C03] (result == nil && !r.refresh) ==> lastresult(Verify)
+//@   ensures[C08] (result == nil && r.refresh) ==> lastresult(IsIdentity)
+
+//@ func (*round3).StoreBroadcastMessage
+//@   nopanic[C05]
+//@   requires r3ok(r) && msg.Content != nil
+//@   let body = msg.Content.(*broadcast3)
+//@   ensures[C03,C14] result == nil ==> typeis(msg.Content, *broadcast3) && body != nil && len(body.C_l) == 32
+//@   ensures[C03,C14] result == nil ==> lastresult(Decommit) && r.ChainKeys[msg.From] == body.C_l
+
+//@ func (*round3).VerifyMessage
+//@   nopanic[C05]
+//@   requires r3ok(r) && msg.Content != nil
+//@   modifies nothing
+//@   ensures result == nil ==> typeis(msg.Content, *message3) && msg.Content.(*message3) != nil && msg.Content.(*message3).F_li != nil
+
+// The Feldman check (C03, C02): an accepted share lies on the sender's committed polynomial at OUR identifier.
+//@ func (*round3).StoreMessage
+//@   nopanic[C05]
+//@   requires r3ok(r) && typeis(msg.Content, *message3) && msg.Content.(*message3) != nil && msg.Content.(*message3).F_li != nil
+//@   requires r.Phi[msg.From] != nil && expok(r.Phi[msg.From])
+//@   let body = msg.Content.(*message3)
+//@   ensures[C03,C02] result == nil ==> act(scval(body.F_li), gen()) == evalpt(r.Phi[msg.From], idsc(r.Helper.info.SelfID))
+//@   ensures[C03,C02] result == nil ==> r.shareFrom[msg.From] == body.F_li
